@@ -14,7 +14,7 @@
        array construction, return; core functions cannot see frames or pending arguments (`callPrim_frame_independent`).
        A first compositional compile-correctness theorem is proved by induction on the form, for the call fragment
        (literals, local and global symbols, nested one-argument calls of global core functions): `compile_correct_calls`.
-       Session 4: the induction is extended to the statement fragment `e ::= literal | symbol | (f e) | (do e ...) | (def x e)`
+       Session 4: the induction is extended to the statement fragment `e ::= literal | symbol | (f e) | (do e ...) | (upscope e ...) | (def x e)`
        (`compile_correct_statements`): block scopes pushed and popped, statements sequenced with the dropped value freed, `def`
        binding a fresh register (copy) or aliasing a named immutable local, the environment of `Lang/Sem` (boxes) tied to registers
        by an invariant split into a compile-time and a run-time part.
@@ -300,7 +300,7 @@ example (c : CState) (h : c.scopes = []) :
   have hl : ∀ x, lookupSlot c x = none := by intro x; simp [lookupSlot, h, searchScopes]
   exact .call1 "emit" _ {} (by decide) (by decide) (hl _) (.call1 "tuple" _ {} (by decide) (by decide) (hl _) (.lit _ trivial))
 
-/-- **Compile correctness, statement fragment** `e ::= literal | symbol | (f e) | (do e ...) | (def x e)` (`TS G`: `f` ranges over the
+/-- **Compile correctness, statement fragment** `e ::= literal | symbol | (f e) | (do e ...) | (upscope e ...) | (def x e)` (`TS G`: `f` ranges over the
     names `G` used as global core functions — not `apply`, not special forms — which are never defined; `x` is any other name;
     nesting arbitrary: `def` inside call arguments, `do` inside `def`, ...), value used or dropped (`opts` without tail / hint), near
     registers (`c.lim ≤ 0xF0`), any block or function scope that is not the top level (`sc.top = false`).
@@ -367,9 +367,9 @@ example (x : String) : lk [({ fn := true } : Scope)] x = none := rfl
 /-- `compile_correct` for the rest of the modelled fragment is NOT proved.  Proved of it: `compile_correct_calls` above, and
     (this theorem) the two atomic cases for every option set without hint / tail: a literal and a global function symbol compile
     to a constant slot, emit no code and leave scopes and buffer untouched.
-    Proved since: `compile_correct_statements` (`do`, `def` of a symbol in a local scope, sequencing, dropped values).
+    Proved since: `compile_correct_statements` (`do`, `upscope`, `def` of a symbol in a local scope, sequencing, dropped values).
     Missing, exactly: (1) calls with 0 or ≥ 2 arguments (PUSH_2 / PUSH_3 grouping: operands held simultaneously), calls through
-    locals and computed heads (need closures in the VM relation); (2) `upscope` (same body function as `do`, no scope), `if` (jumps,
+    locals and computed heads (need closures in the VM relation); (2) `if` (jumps,
     label patches: code layout of sub-forms under the patches; target copy through the hint), `var` / `set` (a register that is
     written: the invariant needs injectivity of mutable names' registers), destructuring `def`, `while` / `break`, `fn` / closures /
     upvalues (`janetc_popscope`'s `keep` reservations are modelled and compared word for word, not proved); (3) the error outcome
